@@ -6,6 +6,12 @@ ASCII plus a few non-ASCII characters); recorded per character: is it consumed (
 set.  The table is what the rules compare with the digit class of the radix."""
 from sym import SymExec
 
+def _lexer_helpers(c):
+    """Private functions of the lexer other than the cursor primitives are looked into (a scanner that delegates to a
+    shared helper is evaluated through it)."""
+    return c.startswith("oq3_lexer::") and not c.endswith(("Cursor::bump", "Cursor::first", "Cursor::second", "Cursor::prev", "Cursor::is_eof", "Cursor::pos_within_token", "Cursor::eat_while", "is_whitespace", "is_id_start", "is_id_continue"))
+
+
 ALPHABET = list(range(0, 128)) + [0xB5, 0x3BC, 0x660, 0x2028, 0xFF10]
 
 
@@ -155,7 +161,7 @@ def exponent_markers(prog, R, rule):
             ok = vals == {("eq", 101), ("eq", 69)}
             R.ob(rule, f"{b.npath.split('::')[-1]}:{o}", ok, at, "exponent accepted after exactly 'e' and 'E'" if ok else
                  f"this exponent arm accepts {sorted(chr(v[1]) if isinstance(v, tuple) and v[0] == 'eq' else str(v) for v in vals)} while its siblings accept 'e' and 'E': the same literal is a float in one position and an integer with a suffix in another")
-    R.floor("exponent decision points in the lexer", n, 3)
+    R.floor("exponent decision points in the lexer", n, 1)
 
 
 def string_scanner_table(prog, fn, quote, other_quote):
@@ -184,7 +190,7 @@ def string_scanner_table(prog, fn, quote, other_quote):
                     return ("c", "char", x)
                 return None
             res = set()
-            for p in SymExec(prog, b, max_visits=2, max_paths=400, call_model=model).paths():
+            for p in SymExec(prog, b, max_visits=2, max_paths=400, call_model=model, inline=_lexer_helpers).paths():
                 if "__diverged__" in p.env:
                     continue
                 nb = sum(1 for nm, a, bb in p.calls if nm.endswith("Cursor::bump"))
@@ -231,7 +237,7 @@ def string_flag_table(prog, fn, quote):
                 return ("c", "char", chars[nb] if nb < len(chars) else 0)
             return None
         res = set()
-        for p in SymExec(prog, b, max_visits=8, max_paths=300, call_model=model).paths():
+        for p in SymExec(prog, b, max_visits=8, max_paths=300, call_model=model, inline=_lexer_helpers).paths():
             if "__diverged__" in p.env or "__cut__" in p.env:
                 continue
             r = deep_strip(p.env.get(0))
@@ -361,6 +367,34 @@ def _keyword_prefix_one(prog, R, rule, fn, kw):
             res.add((r[2] if isinstance(r, tuple) and r[0] == "c" else "?", nb, "__cut__" in p.env))
         if res != {(1 if want else 0, nwant, False)}:
             bad.append((text, sorted(res, key=repr)[:3]))
+    if bad and all(any(x[0] == "?" or x[2] for x in r_) or len(r_) != 1 for _, r_ in bad):
+        # the scanner is written in a form the evaluator cannot run on constants (e.g. a loop over the keyword's
+        # characters): decide the structural core instead - a character is consumed only after it has been
+        # compared: every bump() is dominated by a branch on first(), and no bump() result is inspected
+        from kernel import rv_places, operand_places
+        dom = b.dominators()
+        firsts = {bi for bi, t in b.calls() if (b.callee_of(t) or "").endswith(("Cursor::first", "Cursor::second"))}
+        sbad = []
+        for bi, t in b.calls():
+            if not (b.callee_of(t) or "").endswith("Cursor::bump"):
+                continue
+            d = t["dest"]["l"]
+            used = False
+            for bl in b.blocks:
+                for s_ in bl.stmts:
+                    if s_["k"] == "assign" and any(pl["l"] == d for pl, _ in rv_places(s_["rv"])):
+                        used = True
+                tt = bl.term
+                if tt["k"] == "switch" and any(pl["l"] == d for pl in operand_places(tt["discr"])):
+                    used = True
+                if tt["k"] == "call" and any(pl["l"] == d for a in tt["args"] for pl in operand_places(a)):
+                    used = True
+            if used:
+                sbad.append(f"the result of bump() at {t['at']} is inspected: the character is consumed before it is known to continue the keyword")
+            elif not any(f in dom[bi] for f in firsts):
+                sbad.append(f"bump() at {t['at']} is not preceded by a test of first()")
+        R.ob(rule, fn.split("::")[-1], not sbad, b.at, "not evaluable on constants; structurally: every bump() follows a test of first() and its result is not inspected" if not sbad else sbad[0] + f" (`int O;` would lex as IDENT \"O;\")")
+        return
     R.ob(rule, fn.split("::")[-1], not bad, b.at, f"{len(rows)} inputs: true iff {kw!r} + white space; consumed = the matching prefix only" if not bad else
          f"for the continuation {bad[0][0]!r} the scanner gives (answer, characters consumed) {bad[0][1]} ({len(bad)} of {len(rows)} rows deviate; '?' = not evaluable): a character that does not continue the keyword is consumed, or the header is recognised without the separating white space")
 
@@ -408,3 +442,36 @@ def pound_arm_check(prog, R, rule):
     want = {"TokenKind::Pragma", "TokenKind::Dim", "TokenKind::InvalidIdent"}
     R.ob(rule, "tokens starting with '#'", bool(ks) and ks <= want and "TokenKind::InvalidIdent" in ks, b.at,
          f"kinds: {sorted(ks)}" if ks <= want else f"a token starting with '#' can be {sorted(ks - want)}: a word such as `#dx` that is neither #pragma nor #dim is lexed as a valid token and gets no lexical diagnostic")
+
+
+def line_bounded_check(prog, R, rule):
+    """Line-oriented tokens (line comment, pragma, annotation) end at the first line feed: in the scanners that take
+    "the rest of the line", every predicate handed to Cursor::eat_while rejects '\\n' (evaluated on the character)."""
+    from kernel import norm
+    n = 0
+    for fn in ("oq3_lexer::Cursor::have_pragma", "oq3_lexer::Cursor::line_comment"):
+        b = prog.body(fn)
+        if b is None:
+            R.ob("ANCHOR", fn, False)
+            continue
+        bad = []
+        for bi, t in b.calls():
+            if not (b.callee_of(t) or "").endswith("Cursor::eat_while"):
+                continue
+            n += 1
+            ty = (t.get("argtys") or [None, None])[1]
+            if isinstance(ty, dict) and "closure" in ty:
+                v = predicate_class(prog, norm(ty["closure"]), [10], arg=2).get(10)
+                who = "closure"
+            elif isinstance(ty, dict) and "fndef" in ty:
+                a = t["args"][1]
+                f_ = norm(a.get("resolved") or a.get("fn") or ty["fndef"])
+                v = predicate_class(prog, f_, [10], arg=1).get(10) if prog.body(f_) else "?"
+                who = f_.split("::")[-1]
+            else:
+                v, who = "?", "unknown predicate"
+            if v is not False:
+                bad.append(f"{who} at {t['at']} {'accepts' if v is True else 'could not be evaluated on'} a line feed")
+        R.ob(rule, fn.split("::")[-1], not bad, b.at, "every eat_while predicate stops at '\\n'" if not bad else
+             f"{bad[0]}: the token runs on into the next line (`pragma\\nqubit q;` becomes one PRAGMA token)")
+    R.floor("eat_while calls in line-oriented scanners", n, 2)
